@@ -70,9 +70,11 @@ Rebase(ex) == ExDropZero(RebaseFrom(ex, <<>>))
 
 -----------------------------------------------------------------------------
 \* the action alphabet
-QQOps == {"add", "sub", "mul", "div", "eq", "np.linspace", "np.logspace"}            \* x (op) y, both quantities
+QQOps == {"add", "sub", "mul", "div", "eq", "np.linspace", "np.logspace",            \* x (op) y, both quantities
+          "sum2"}                                                                      \* sum([x, y]) = (0 + x) + y
 NQOps == {"radd", "rsub", "rmul", "rdiv", "np.linspace_nq", "np.logspace_nq",        \* number (op) x
-          "rmul1"}                                                                     \* 1*x
+          "rmul1",                                                                     \* 1*x
+          "radd0", "radd0f", "sum1"}              \* 0 + x, 0.0 + x, sum([x]): a plain zero is still a number, the sum a new object
 QNOps == {"addn", "subn", "muln", "divn", "eqn", "np.linspace_qn", "np.logspace_qn",  \* x (op) number
           "muln1", "divn1", "addn0", "subn0"}                                          \* x*1, x/1, x+0, x-0: still operations
 SinOps == {"np.sin", "np.cos", "np.tan"}
@@ -112,7 +114,8 @@ RefusesOn(A, X, Y) ==
     [] A.op = "eqn" -> ~Convertible(UNone, X.u)
     [] A.op \in {"np.linspace", "np.logspace"} -> ~Convertible(Y.u, X.u) \/ X.dec \/ Y.dec
     [] A.op \in {"np.linspace_nq", "np.logspace_nq", "np.linspace_qn", "np.logspace_qn", "np.round", "rele_set"} -> X.dec
-    [] A.op \in {"radd", "rsub", "addn", "subn", "addn0", "subn0"} -> ~ZeroDim(X.u) \/ IsLog(X.u)
+    [] A.op \in {"radd", "rsub", "addn", "subn", "addn0", "subn0", "radd0", "radd0f", "sum1"} -> ~ZeroDim(X.u) \/ IsLog(X.u)
+    [] A.op = "sum2" -> ~ZeroDim(X.u) \/ IsLog(X.u) \/ ~ZeroDim(Y.u) \/ IsLog(Y.u) \/ KindClash(X, Y)
     [] A.op = "rdiv" -> X.z
     [] A.op \in SinOps -> ~Convertible(X.u, URad) \/ X.dec
     [] A.op \in ArcOps -> ~ZeroDim(X.u) \/ X.dec
@@ -134,7 +137,7 @@ ResUnit(A, ux, uy) ==
     [] A.op = "mul" -> Cancel(ExMerge(ux, uy, 1))
     [] A.op = "div" -> Cancel(ExMerge(ux, uy, -1))
     [] A.op = "rdiv" -> Cancel(ExScale(ux, RInt(-1)))
-    [] A.op \in {"radd", "rsub"} \cup SinOps -> UNone
+    [] A.op \in {"radd", "rsub", "radd0", "radd0f", "sum1", "sum2"} \cup SinOps -> UNone
     [] A.op \in ArcOps -> URad
     [] A.op \in PowOps -> Cancel(ExScale(ux, PowN(A.op)))
 
@@ -145,7 +148,8 @@ HasResult(op) == op \notin QueryOps \cup ValueOps \cup InplaceOps \cup {"eq", "e
 ResObj(A, io, tok) ==
   LET X == io[A.x]  Y == IF A.y > 0 THEN io[A.y] ELSE [q |-> 0, u |-> UNone, e |-> 0, dec |-> FALSE, arr |-> FALSE, z |-> FALSE]
       arith == A.op \in {"add", "sub", "mul", "div", "radd", "rsub", "rmul", "rdiv", "addn", "subn", "muln", "divn", "neg", "pow2",
-                         "muln1", "divn1", "addn0", "subn0", "rmul1", "pow1", "pow_pair11", "pow_float1"}
+                         "muln1", "divn1", "addn0", "subn0", "rmul1", "pow1", "pow_pair11", "pow_float1",
+                         "radd0", "radd0f", "sum1", "sum2"}
   IN [q |-> IF A.op = "ctor_dict" \/ A.op = "ctor_dict_abse" THEN X.q ELSE tok,
       u |-> ResUnit(A, X.u, Y.u),
       e |-> IF A.op = "ctor_dict" THEN X.e
